@@ -34,4 +34,10 @@ PN == (0 :> O("put", 5, 1)) @@ (1 :> O("iscan", 0, 0)) @@ (2 :> O("rem", 10, 0))
 PO == (0 :> O("put", 2, 1)) @@ (1 :> O("scan", 0, 0)) @@ (2 :> O("rem", 2, 0))
 \* p: the same with the cursor
 PP == (0 :> O("put", 2, 1)) @@ (1 :> O("iscan", 0, 0)) @@ (2 :> O("rem", 2, 0))
+\* q: greatest-key query (right-to-left scan, max 1) vs an insert of a new greatest key that splits B2, and a reader
+PQ == (0 :> O("put", 15, 1)) @@ (1 :> O("rscan", 0, 0)) @@ (2 :> O("get", 14, 0))
+\* r: greatest-key query vs removal of the greatest key and an insert that splits B2 (the greatest keys move to B3)
+PR == (0 :> O("put", 13, 1)) @@ (1 :> O("rscan", 0, 0)) @@ (2 :> O("rem", 14, 0))
+\* s: greatest-key query vs the removal of B2's only key (B2 unlinked, the greatest key is now in B1) and a re-insert
+PS == (0 :> O("put", 10, 1)) @@ (1 :> O("rscan", 0, 0)) @@ (2 :> O("rem", 10, 0))
 ====
